@@ -441,3 +441,45 @@ def rule_inverse_perms(mod, rep):
                     ok = True
             rep.check(ok, "P-INV", "%s#%s" % (f.name, nm), "%s[%s[i]] = i" % (nm, src), "%s is not built as the inverse of %s (pivotL would look for the diagonal / recorded row in the wrong place)" % (nm, src),
                       sts[0].loc if sts else f.file, f.name)
+
+
+def rule_pivrow_consistent(mod, rep):
+    rep.rule("P-PIVROW", "p?gstrf_pivotL: whenever the recorded row is not the one finally chosen, *pivrow is reloaded from the row list at the chosen position "
+             "(*pivrow = lsub_ptr[pivptr]) before perm_r[*pivrow] = jcol is stored; the row swapped into the pivot position is the row recorded in perm_r", floor=4)
+    for prec, f in fam(mod, "p?gstrf_pivotL"):
+        kpv = f.pindex("pivrow"); kpr = f.pindex("perm_r"); kj = f.pindex("jcol"); kup = f.pindex("usepr")
+        se = _singular_edge(f)
+        if not se:
+            continue
+        C, bid, sing_t, ok_t = se[0]
+        dom = f.dom()
+        rec = [s for s in f.insts() if s.op == "store" and (("A", kpr), ("i",)) in f.addr_paths(s) and strip_casts(f, s.ops[0]) == ["a", kj] and sing_t not in dom[s.bb.id]]
+        reload = [s for s in f.insts() if s.op == "store" and (("A", kpv),) in f.addr_paths(s) and s.ops[0][0] == "v" and f.inst[strip_casts(f, s.ops[0])[1]].op == "load"
+                  and addr_is_elem_of(f, f.inst[strip_casts(f, s.ops[0])[1]], "lsub") and ok_t in dom[s.bb.id]]
+        # the fallback points: stores of NO to *usepr outside the singular region, and the entry with *usepr == NO
+        NO = mod.enums.get("NO")
+        fb = [s for s in f.insts() if s.op == "store" and (("A", kup),) in f.addr_paths(s) and is_const(s.ops[0], NO) and sing_t not in dom[s.bb.id]]
+        why = []
+        if not rec: why.append("record store not found")
+        if not reload: why.append("no *pivrow = lsub_ptr[pivptr] store")
+        for s in fb:
+            # after '*usepr = NO' a test of *usepr (not overwritten in between) has a known outcome
+            deadk = set()
+            for b in f.blocks:
+                t = b.insts[-1]
+                if t.op == "br" and t.ops and t.ops[0][0] == "v":
+                    Cc = f.inst[t.ops[0][1]]
+                    if Cc.op == "icmp" and Cc.pred in ("eq", "ne"):
+                        a0, b0 = strip_casts(f, Cc.ops[0]), strip_casts(f, Cc.ops[1])
+                        for x, y in ((a0, b0), (b0, a0)):
+                            if x[0] == "v" and f.inst[x[1]].op == "load" and (("A", kup),) in f.addr_paths(f.inst[x[1]]) and y[0] == "c":
+                                others = [z for z in f.insts() if z.op == "store" and (("A", kup),) in f.addr_paths(z) and z is not s]
+                                between = f.reach([s], stop=lambda q: q.i == f.inst[x[1]].i)
+                                if f.inst[x[1]].i in between and not any(z.i in between for z in others) and f.dominates(s, f.inst[x[1]]) is not None:
+                                    is_no = (y[1] == NO)
+                                    true_when = (Cc.pred == "eq") == is_no
+                                    deadk.add((b.id, t.tgt[1] if true_when else t.tgt[0]))
+            r = f.reach([s], stop=lambda x: x in reload, dead_edges=deadk)
+            if any(x.i in r for x in rec):
+                why.append("after the fallback at %s perm_r[*pivrow] is recorded with the stale recorded row (no reload of *pivrow)" % s.loc)
+        rep.check(not why, "P-PIVROW", "%s#pivrow" % f.name, "*pivrow reloaded on every fallback path", "; ".join(why), rec[0].loc if rec else f.file, f.name)
